@@ -1,3 +1,94 @@
-From NP Require Import Base.
-Theorem placeholder_C05 : True. Proof. exact I. Qed.
-Print Assumptions placeholder_C05.
+(* C05 — a nested column behaves like a sequence of rows.
+   Every theorem: for EVERY physical column p satisfying the invariant inv_b (well-formed, any number of
+   chunks >= 1, any offsets base, any size; missing rows hide nothing) and every argument in the property's
+   domain (op_ok: offered rows have the column's width, assignment targets are distinct, one offered row per
+   target), the modelled operation (ExtArray.v, mirrors ext_array.py) denotes exactly what the same operation
+   gives on the plain list of rows rows_of (abs p) (Logical.v: Python sequence semantics, incl. CPython's
+   slice.indices, negative positions, take with fill, assignment at distinct targets), errors included. *)
+From Coq Require Import String List Arith Bool ZArith.
+Import ListNotations.
+From NP Require Import Base Values Arrow Abs Kernels Logical ExtArray Codec Steps
+  Proofs_Views Proofs_Codec Proofs_Select Proofs_Setitem Proofs_Steps.
+From NP Require Import Props.C03.
+
+Theorem C05_len : forall p, m_len p = length (rows_of (abs p)).
+Proof. intro p. rewrite len_refines. unfold rows_of, spec_len. rewrite map_length, seq_length. reflexivity. Qed.
+Print Assumptions C05_len.
+
+Theorem C05_getitem_int : forall p z, inv_b p = true -> m_getitem_int p z = spec_col_getitem_int (abs p) z.
+Proof. exact getitem_int_refines. Qed.
+Print Assumptions C05_getitem_int.
+
+Theorem C05_getitem_slice : forall p a b s, inv_b p = true -> op_ok p (OSlice a b s) = true ->
+  res_map abs (m_getitem_slice p a b s) = spec_col_slice (abs p) a b s.
+Proof. exact slice_refines. Qed.
+Print Assumptions C05_getitem_slice.
+
+Theorem C05_getitem_mask : forall p m, inv_b p = true -> op_ok p (OMask m) = true ->
+  res_map abs (m_getitem_mask p m) = spec_col_mask (abs p) m.
+Proof. exact mask_refines. Qed.
+Print Assumptions C05_getitem_mask.
+
+Theorem C05_getitem_int_array : forall p ix, inv_b p = true -> op_ok p (OIdx ix) = true ->
+  res_map abs (m_getitem_idx p ix) = spec_col_idx (abs p) ix.
+Proof. exact idx_refines. Qed.
+Print Assumptions C05_getitem_int_array.
+
+Theorem C05_take : forall p ix af fill, inv_b p = true -> op_ok p (OTake ix af fill) = true ->
+  res_map abs (m_take p ix af fill) = spec_col_take (abs p) ix af fill.
+Proof. exact take_refines. Qed.
+Print Assumptions C05_take.
+
+Theorem C05_concat : forall p bs afs, inv_b p = true -> op_ok p (OConcat bs afs) = true ->
+  res_map abs (m_concat (bs ++ p :: afs)) = spec_col_concat (map abs bs ++ abs p :: map abs afs).
+Proof. exact concat_refines. Qed.
+Print Assumptions C05_concat.
+
+Theorem C05_copy : forall p, inv_b p = true -> res_map abs (m_copy p) = Ok (abs p).
+Proof. intros p H. exact (copy_refines p H eq_refl). Qed.
+Print Assumptions C05_copy.
+
+Theorem C05_dropna : forall p, inv_b p = true -> res_map abs (m_dropna p) = Ok (spec_col_dropna (abs p)).
+Proof. intros p H. exact (dropna_refines p H eq_refl). Qed.
+Print Assumptions C05_dropna.
+
+Theorem C05_pickle : forall p, inv_b p = true -> res_map abs (m_pickle p) = Ok (abs p).
+Proof. intros p H. exact (pickle_refines p H eq_refl). Qed.
+Print Assumptions C05_pickle.
+
+(* element assignment through the cumulative-sum masked replace = list_update at the (distinct) targets *)
+Theorem C05_setitem : forall p k v, inv_b p = true -> op_ok p (OSetitem k v) = true ->
+  res_map abs (m_setitem p k v) = spec_col_setitem (abs p) (akey_of k) (aval_of v).
+Proof. exact setitem_refines. Qed.
+Print Assumptions C05_setitem.
+
+(* the two index-arithmetic facts behind replace_with_mask *)
+Theorem C05_value_index_is_rank : forall m i, nth i m false = true ->
+  nth i (value_index_from 0 m) 0 = count_true (firstn i m).
+Proof. exact value_index_rank. Qed.
+Print Assumptions C05_value_index_is_rank.
+
+Theorem C05_unique_index_sorts_distinct_positions : forall pos, nodup_nat pos = true ->
+  map (fun j => nth j pos 0) (unique_first_index pos)
+  = true_positions (mask_of_positions (S (fold_right Nat.max 0 pos)) pos).
+Proof. exact unique_first_index_sorts. Qed.
+Print Assumptions C05_unique_index_sorts_distinct_positions.
+
+(* sequences of such operations, of any length: the model's history denotes the list history *)
+Theorem C05_histories : forall ops p, inv_b p = true -> ops_ok p ops = true ->
+  res_map abs (m_run p ops) = spec_run (abs p) ops.
+Proof. exact run_refines. Qed.
+Print Assumptions C05_histories.
+
+(* non-vacuity: the sliced, two-chunk sample column of C03 satisfies the invariant, and a history of a
+   reversed strided slice, a mixed-sign assignment, a take with fill and a dropna is in the domain *)
+Definition sample_history : list aop :=
+  [ OSetitem (KIdx [(-1)%Z; 0%Z]) (SRows [Some [[VInt 7]; [VTok 9]]; None]);
+    OSlice None None (Some (-2)%Z);
+    OTake [1%Z; (-1)%Z; 0%Z] true (Some [[VInt 1; VInt 2]; [VNull; VTok 3]]);
+    ODropna ].
+Example C05_hypotheses_satisfiable :
+  inv_b sample_col = true /\ ops_ok sample_col sample_history = true
+  /\ res_map (fun q => rows_of (abs q)) (m_run sample_col sample_history)
+     = Ok [ Some [[VInt 1; VInt 2]; [VNull; VTok 3]]; Some [[VInt 7]; [VTok 9]] ].
+Proof. split; [reflexivity|]. split; [reflexivity|]. vm_compute. reflexivity. Qed.
